@@ -244,7 +244,7 @@ static int build(Model& M, PK pk, const EllCfg& e, const ParCfg& par, double k1,
         M.regime = "eccentric-near-polar-pair(|f|>0.005&cos<1e-6|f>0.25&cos<0.1|f<-0.5&cos<0.05)";
       else if (distinct && 1 - M.E.e2 * q1.s * q2.s <= 0) M.regime = "prolate-opposite-hemisphere-parallels(1-e2*sin1*sin2<=0)";
     } else {
-      if (distinct && q1.c == 0) { M.regime = "first-parallel-at-pole"; M.hardregime = true; }
+      if (distinct && q1.c == 0) M.regime = "first-parallel-at-pole";     // (defect fixed in /repo: soft regime, point regimes take precedence)
       else if (distinct && fabsq(M.E.e2 + 3) < 1e-2Q) M.regime = "e2~-3";
       else if (distinct && e.f < -1.03) {      // Init fails (NaN / wrong lat0) when, with the cone oriented north, the lower parallel has sin < 0.15
         Q sg = q1.s + q2.s >= 0 ? 1 : -1, sa = sg * q1.s, sb = sg * q2.s, smin = sa < sb ? sa : sb;
